@@ -45,6 +45,10 @@ func main() {
 	os.MkdirAll(*out, 0o755) //nolint:errcheck
 	replace := map[string]string{}
 	for i, rel := range flag.Args() {
+		// "file.go:pool": sync.Pool of that file becomes the deterministic verifrt.Pool as well (not for files whose pools are
+		// part of an exported signature, e.g. Engine.GetCtxPool)
+		poolRewrite = strings.HasSuffix(rel, ":pool")
+		rel = strings.TrimSuffix(rel, ":pool")
 		src := filepath.Join(*repo, rel)
 		dst := filepath.Join(*out, fmt.Sprintf("i%02d_%s", i, filepath.Base(rel)))
 		if err := instrument(src, dst); err != nil {
@@ -70,6 +74,8 @@ func main() {
 		os.Exit(1)
 	}
 }
+
+var poolRewrite bool
 
 type inst struct {
 	fset  *token.FileSet
@@ -119,7 +125,7 @@ func (in *inst) expr(e ast.Expr) ast.Expr {
 	case *ast.SelectorExpr:
 		switch in.pkgOf(x.X) {
 		case "sync":
-			if syncTypes[x.Sel.Name] {
+			if syncTypes[x.Sel.Name] || (poolRewrite && x.Sel.Name == "Pool") {
 				in.used = true
 				return rtSel(x.Sel.Name)
 			}
